@@ -24,6 +24,7 @@ EXPLANATION = (
     "extension, left alignment with 32-N/8 zero bytes, dynamic (32, length, data)); widths > 256 are rejected; "
     "every symbol label contains uid() and a per-path counter. Values read back are not decided."
     ' Also evaluated here: fork-copy / per-transaction copy completeness (C20 R20.1): block fields and prank records written by cheatcodes must not be shared with other paths or transactions.'
+    ' Round 4: a read-back after deal/store skips an earlier write only under `== unsat` (C02 R02.1 at Exec.select / balance_of).'
 )
 ASSUMPTIONS = ["Forge-std / SVM signatures (hash-verified against the repo's constants)", "dataclass default_factory creates a fresh object per instance"]
 
